@@ -122,7 +122,7 @@ def run(tier, seed):
         case = E.case_of(c)
         r = c['r']
         if r['err']:
-            f, kn = J.classify(c, 'offset-addressed edit raised ' + r['err'])
+            f, kn = J.classify(c, 'offset-addressed edit raised ' + r['err'], placement=True)
         else:
             dout = c.get('dout') or docrun.canon_session(A.read(r['out'], table=c['din']['rpr_table']), c['din']); c['dout'] = dout
             fail = None
@@ -142,7 +142,7 @@ def run(tier, seed):
                 if (deleted, inserted) != (t_real, E.literal(new)) and trimmed(deleted, inserted) != trimmed(t_real, E.literal(new)):
                     fail = 'range [%d,%d) = %r (real characters %r) was addressed, but the session deleted %r and inserted %r' % (a, a + len(t), t, t_real, deleted, inserted)
                 elif E.oracle_C01(c): fail = 'characters outside the addressed range changed: ' + E.oracle_C01(c)[:300]
-            f, kn = J.classify(c, fail)
+            f, kn = J.classify(c, fail, placement=True)
         if f and kn: ck.known(kn[0], kn[1], case)
         elif f: ck.violation('oracle', case, f)
         if not r['err'] and r['ap']: distinct.add(json.dumps(case, sort_keys=True)[:2000])
